@@ -82,6 +82,10 @@ func buildTar(sh tarShape, rng *rand.Rand) ([]byte, error) {
 		if sh.Typ == "hardlink-gpkg" {
 			h.Linkname = "pkg/gpkg-1"
 		}
+	case "vendor-X", "vendor-A", "vendor-I": // POSIX reserves 'A'..'Z' for vendor extensions (Solaris X / A, star I)
+		h.Typeflag = sh.Typ[len(sh.Typ)-1]
+		body = []byte("vendor data\n")
+		h.Size = int64(len(body))
 	case "char":
 		h.Typeflag = tar.TypeChar
 		h.Devmajor, h.Devminor = 4, 64
